@@ -55,6 +55,10 @@ impl<I: ConnectSyscall> ConnectSyscall for NioConnectSyscall<I> {
             }
             let errno = Error::last_os_error().raw_os_error();
             if errno == Some(libc::EINPROGRESS) || errno == Some(libc::EALREADY) || errno == Some(libc::EWOULDBLOCK) {
+                if !blocking {
+                    // the caller made the descriptor non-blocking: report EINPROGRESS, do not wait
+                    break;
+                }
                 //阻塞，直到写事件发生
                 left_time = start_time
                     .saturating_add(send_time_limit(fd))
